@@ -18,7 +18,10 @@ Wrap1(S) == {TList(e) : e \in S} \cup {TSet(e) : e \in S} \cup {TMap(e) : e \in 
               \cup {TTup(es) : es \in SeqsUpTo(S, 2)} \cup ObjTypes(S)
 
 U0 == Leaf7
-U1 == U0 \cup Wrap1(U0)
+\* attribute names that need normalization (eacute), JSON escaping (ctl = U+001F, dq = a double quote) or contain a space (sp)
+OddNames == {TObjOpt([ctl |-> TStr, a |-> TNum], <<"ctl">>), TObjOpt([eacute |-> TStr], <<"eacute">>), TObj([eacute |-> TStr]), TObjOpt([dq |-> TBool, sp |-> TNum], <<"dq", "sp">>),
+             TObj([ctl |-> TNum]), TObjOpt([a |-> TStr, sp |-> TNum], <<"sp">>), TList(TObjOpt([ctl |-> TStr], <<"ctl">>))}
+U1 == U0 \cup Wrap1(U0) \cup OddNames
 \* selected depth-2 types: every U1 type wrapped once more in a single-slot constructor,
 \* plus pairs around a fixed sibling so that differences at depth 2 sit beside equal parts
 Wrap2(S) == {TList(e) : e \in S} \cup {TSet(e) : e \in S} \cup {TMap(e) : e \in S}
